@@ -275,6 +275,68 @@ def exception_case(ctx, seed):
         ctx.case(('exception', seed, kind, tuple(calls)), nontrivial=True)
 
 
+def overlapping_fetches(ctx):
+    """Two threads fetch the SAME recording through ONE cassette object at the same time (a replay pool sharing its cassette): on S3 the
+    first download is stalled until the second request is under way. The two fetched recordings are independent object graphs."""
+    import threading
+    import time
+    from vlib.values import Obj
+    for kind in ('s3', 'memory', 'file'):
+        for rnd in range(2 if ctx.quick else 6):
+            with open_box(kind, prefix=('', 'ov')[rnd % 2]) as box:
+                cas = box.cassette
+                rec = cas.create_new_recording('Cat')
+                rec.set_data('rows', {'value': [[1, 2], {'k': [3]}, Obj(name='o', items=[4])]})
+                rec.set_data('n', {'value': [5]})
+                rec.add_metadata({'stops': ['a', 'b'], 'plan': {'legs': [1, 2]}})
+                cas.save_recording(rec)
+                reader = box.reader()
+                second_started = threading.Event()
+                stalled = {'n': 0}
+                if box.fake is not None:
+                    real_get = box.fake.get
+
+                    def slow_get(owner, bucket, key):
+                        if '/full/' in key and stalled['n'] == 0:
+                            stalled['n'] += 1
+                            second_started.wait(5)
+                            time.sleep(0.05)            # the second request is inside get_recording by now
+                        return real_get(owner, bucket, key)
+                    box.fake.get = slow_get
+                got = {}
+
+                def fetch(i):
+                    if i == 1:
+                        time.sleep(0.02)
+                        second_started.set()
+                    try:
+                        got[i] = reader.get_recording(rec.id)
+                    except BaseException as ex:  # noqa
+                        got[i] = ex
+                ths = [threading.Thread(target=fetch, args=(i,)) for i in range(2)]
+                for t in ths:
+                    t.start()
+                for t in ths:
+                    t.join(30)
+                w = {'overlapping_fetches': True, 'cassette': kind, 'round': rnd}
+                ctx.case(w)
+                ctx.count('overlapping_fetch_pairs')
+                if any(isinstance(got.get(i), BaseException) or got.get(i) is None for i in range(2)):
+                    ctx.violation('fetching one recording from two threads at once failed: %r' % ([type(got.get(i)).__name__ for i in range(2)],), w)
+                    continue
+                a, b = got[0], got[1]
+                shared = shares_mutable(a.get_metadata(), b.get_metadata()) or any(shares_mutable(a.get_data_direct(k), b.get_data_direct(k)) for k in ('rows', 'n'))
+                if a is b or shared:
+                    ctx.violation('two overlapping fetches of one recording share %s' % ('the recording object' if a is b else 'mutable objects'), w)
+                    continue
+                # one holder works on its copy by reference; the other one still sees what was recorded
+                mutate_deep(a.get_metadata())
+                mutate_deep(a.get_data_direct('rows'))
+                if not teq(b.get_metadata(), {'stops': ['a', 'b'], 'plan': {'legs': [1, 2]}}) or not teq(b.get_data('n'), {'value': [5]}) or \
+                        not teq(b.get_data('rows')['value'][0], [1, 2]):
+                    ctx.violation('a fetch that overlapped with another fetch of the same recording observes what the other holder did to its copy', w)
+
+
 def concurrent_reads(ctx):
     """Fresh copies are also promised to readers on different threads: two threads read recorded values (with shared sub-objects)
     at the same time. Explored with the deterministic scheduler; the preemption points include the lines of the serializer
@@ -558,6 +620,8 @@ def run(ctx):
     for i in range(ctx.budget(6, 200)):
         deep_stack_case(ctx, base + i)
     concurrent_reads(ctx)
+    if ctx.shard == 0:
+        overlapping_fetches(ctx)
     if not ctx.quick and ctx.shard == 0:
         from vlib.repo_tests import run_under_monitors
         res, tail = run_under_monitors()
@@ -574,6 +638,8 @@ def run(ctx):
 
 
 def replay(ctx, w):
+    if w.get('overlapping_fetches'):
+        return overlapping_fetches(ctx)
     s = w['case_seed']
     recording_case(ctx, s)
     replay_case(ctx, s)
